@@ -1012,7 +1012,8 @@ func (p *queryPlan) projectAndGroupBy() error {
 		// Update sorting configuration.
 		found := false
 		for _, g := range p.stm.GroupByBindings() {
-			if prj.Binding == g {
+			// GROUP BY lists output bindings: the alias of the projection if it has one.
+			if g == prj.Alias || (prj.Alias == "" && g == prj.Binding) {
 				found = true
 			}
 		}
